@@ -8,7 +8,10 @@ T-corr: the hand-written json-checker / update_conf / check_pipeline_section mod
         against the real code: (a) every parameter of every built-in class x a pool of boundary /
         wrong-type values through the real class constructor (registry dispatch + check_conf);
         (b) the same through check_configuration.check_pipeline_section inside a minimal
-        pipeline; (c) random whole pipelines (suffixed steps, multiband images, grids).
+        pipeline; (c) random whole pipelines (suffixed steps, multiband images, grids);
+        (d) ONE PandoraMachine checking 2-4 different pipelines in sequence (legal reorderings of
+        the same step names, with / without validation): each returned configuration against the
+        (stateless) model.
         Compared: accept/reject, the returned dictionary WITH key order, non-mutation of the
         user's dictionary (deep copy before/after).
 Spec  : the documented domain (Spec/Domains.v, extracted: fid 5/7) applied to the real code's
@@ -27,7 +30,9 @@ RULE = ("(a)/(b): every (built-in class, parameter) x the value pool {boundary-1
         "float twins, bool, str, 'NaN'/'inf' strings, '%d', null, nan, inf, [], [nan], list, dict}, alone, at class level and "
         "inside a minimal pipeline, plus an unknown key, a missing / unknown / non-string method; (c) random legal "
         "pipelines with random subsets of parameters, ~15% out-of-domain values, random suffixes, mono/multiband "
-        "images, list/grid disparity sources.  A case is non-trivial when it sets at least one parameter besides the "
+        "images, list/grid disparity sources; (d) sequences of 2-4 pipelines over a common pool of step names (filter / "
+        "refinement / validation, with suffixes, in different orders, with and without validation) checked one after "
+        "the other by ONE machine object.  A case is non-trivial when it sets at least one parameter besides the "
         "method; distinct by (class, parameter, value) or by the whole configuration")
 ASSUMES = [
     "json-checker 2.0.0 semantics (And without short circuit, Or's filtering by exact type, the list rule, missing / "
@@ -38,8 +43,9 @@ ASSUMES = [
     "'%' is applied to floats/strings only under And(int, ...) where the result cannot matter; `str % int` is modelled "
     "as TypeError (a format string such as '%d' does not raise in Python: every present lambda raises on it anyway "
     "through an order comparison; '%d' is in the value pool)",
-    "sequencing of steps is C01's subject: only pipelines of the documented language are generated; every check uses "
-    "a fresh PandoraMachine (machine.pipeline_cfg is never reset by the code: DESIGN O2)",
+    "sequencing of steps is C01's subject: only pipelines of the documented language are generated; streams (a)-(c) "
+    "use a fresh PandoraMachine per check, stream (d) reuses one machine object for several pipelines (check_conf "
+    "starts from a clean pipeline_cfg since the fix of DESIGN O2: the model of check_pipeline_section is stateless)",
     "pandora2d is not imported (the matching-cost step guard is active)",
     "optimization and semantic_segmentation have no built-in method and are not covered",
 ]
@@ -253,7 +259,7 @@ def run(ctx):
                         "returned": jw.show(out["pipeline"][kind]) if ok else None})
 
     # ------------------------------------------------------------------ (c) random whole pipelines
-    if replay is None or replay.get("level") == "pipeline":
+    if replay is None or replay.get("level") in ("pipeline", "machine_history"):
         random_pipelines(ctx, model, cc, PandoraMachine, methods, params, replay)
 
     ctx.gen_obligations = ["every generated parameter schema accepts exactly its documented domain (Props/C05.v, re-proved "
@@ -325,7 +331,7 @@ def random_pipelines(ctx, model, cc, PandoraMachine, methods, params, replay):
 
     band_sets = [[None], [None], ["r", "g", "b"], ["red", "green", "nir"], ["r", "g"]]
 
-    def step_cfg(kind, bands):
+    def step_cfg(kind, bands, p_bad=0.06):
         mname = rng.choice(by_kind[kind])
         cfg = {}
         valid = True
@@ -342,11 +348,11 @@ def random_pipelines(ctx, model, cc, PandoraMachine, methods, params, replay):
                     items.append((p, rng.choice(["r", "x", None, ""])))
                 continue
             if rng.random() < 0.5:
-                if rng.random() < 0.06 and bad.get((kind, mname, p)):
+                if rng.random() < p_bad and bad.get((kind, mname, p)):
                     items.append((p, rng.choice(bad[(kind, mname, p)])))
                 elif good.get((kind, mname, p)):
                     items.append((p, rng.choice(good[(kind, mname, p)])))
-        if rng.random() < 0.02:
+        if rng.random() < p_bad / 3:
             items.append(("unknown_parameter", 3))
         rng.shuffle(items)
         for k, v in items:
@@ -371,9 +377,118 @@ def random_pipelines(ctx, model, cc, PandoraMachine, methods, params, replay):
             pipe[name] = cfg
             meths.append((name, k, mname))
         cases.append((bandsL, bandsR, srcL, srcR, {"pipeline": pipe}, meths))
-    if replay is not None:
+    if replay is not None and replay.get("level") == "pipeline":
         cases = [(replay["bandsL"], replay["bandsR"], replay["srcL"], replay["srcR"], jw.unshow(replay["user"]),
                   [tuple(m) for m in replay["meths"]])]
+    elif replay is not None:
+        cases = []
+
+    # ---------------------------------------------------------------- (d) one machine, several pipelines
+    POOL_NAMES = ["filter", "filter.b", "refinement", "refinement.1", "validation", "validation.v", "filter.2"]
+    hists = []
+    for _ in range(60 if quick else 600):
+        bands = rng.choice(band_sets)
+        seq = []
+        for _ in range(rng.randrange(2, 5)):
+            a = [rng.choice(["aggregation", "cost_volume_confidence"]) for _ in range(rng.randrange(0, 2))]
+            post = [nm for nm in POOL_NAMES if rng.random() < 0.45]
+            if rng.random() < 0.35:   # a pipeline without validation after (or before) one with validation
+                post = [nm for nm in post if not nm.startswith("validation")]
+            rng.shuffle(post)
+            names = ["matching_cost"] + [f"{k}.{i}" if rng.random() < 0.3 else k for i, k in enumerate(a)] + ["disparity"] + post
+            if len(set(names)) != len(names):
+                names = list(dict.fromkeys(names))
+            pipe, meths = {}, []
+            for nm in names:
+                k = nm.split(".")[0]
+                mname, cfg = step_cfg(k, bands, 0.006)
+                pipe[nm] = cfg
+                meths.append((nm, k, mname))
+            seq.append(({"pipeline": pipe}, meths))
+        hists.append((bands, seq))
+    # the demonstration of DESIGN O2 (repaired): A then B = A with filter/refinement swapped and renamed
+    mcd = [("matching_cost", {"matching_cost_method": "sad"}), ("disparity", {"disparity_method": "wta"})]
+    fA = ("filter", {"filter_method": "median"})
+    rA = ("refinement", {"refinement_method": "vfit"})
+    fB = ("filter.b", {"filter_method": "median", "filter_size": 5})
+    vA = ("validation", {"validation_method": "cross_checking_accurate"})
+
+    def fixed(steps):
+        return ({"pipeline": {n: dict(c) for n, c in steps}},
+                [(n, n.split(".")[0], c[METHOD_KEY[n.split(".")[0]]]) for n, c in steps])
+    hists.insert(0, ([None], [fixed(mcd + [fA, rA]), fixed(mcd + [rA, fB])]))
+    hists.insert(1, ([None], [fixed(mcd + [fA, vA, rA]), fixed(mcd + [rA, fA]), fixed(mcd + [vA])]))
+    if replay is not None and replay.get("level") == "machine_history":
+        hists = [(replay["bands"], [(jw.unshow(u), [tuple(m) for m in ms]) for u, ms in zip(replay["users"], replay["meths"])])]
+    elif replay is not None:
+        hists = []
+    hbatch = []
+    for bands, seq in hists:
+        for user, meths in seq:
+            hbatch.append((6, [images_wire(bands, bands, "list", "none"), jw.to_wire(user)]))
+            for name, k, mname in meths:
+                hbatch.append((7, [jw.wire_str(k), jw.wire_str(mname),
+                                   jw.to_wire({kk: conv(v) for kk, v in user["pipeline"][name].items()})]))
+    hres = model.batch(hbatch) if hbatch else []
+    hpos = 0
+    for bands, seq in hists:
+        metaL, metaR = meta(bands, "list"), meta(bands, "none")
+        machine = PandoraMachine()          # ONE object for the whole sequence
+        rp = {"level": "machine_history", "bands": bands, "users": [jw.show(u) for u, _ in seq],
+              "meths": [[list(m) for m in ms] for _, ms in seq]}
+        ctx.case(("machine_history", repr(rp["users"]), tuple(map(str, bands))))
+        ctx.count("machine_histories")
+        if len(ctx.samples) < 14:
+            ctx.sample({"machine_history": [list(u["pipeline"]) for u, _ in seq], "bands": bands})
+        for idx_call, (user, meths) in enumerate(seq):
+            m_pipe = hres[hpos]
+            specs = hres[hpos + 1: hpos + 1 + len(meths)]
+            hpos += 1 + len(meths)
+            mine = copy.deepcopy(user)
+            before = jw.to_wire(mine)
+            try:
+                out = cc.check_pipeline_section(mine, metaL, metaR, machine)
+                ok = True
+            except Exception as exc:  # pylint: disable=broad-except
+                ok, out = False, None
+                ctx.count("machine_history_rejected_" + pu.exc_class(exc))
+            ctx.traces += 1
+            ctx.count("machine_history_checks")
+            rpi = dict(rp, call=idx_call)
+            impl = [1, jw.to_wire(out)] if ok else [0]
+            # the property first (so that a concrete violation names its class), then the correspondence
+            if ok:
+                got_steps, want_steps = list(out["pipeline"]), list(user["pipeline"])
+                stale = [st for st in got_steps if st not in want_steps]
+                if stale:
+                    ctx.violation("machine_history_stale_step",
+                                  f"call {idx_call} on one machine: user steps {want_steps} came back as {got_steps}: "
+                                  f"{stale} were not given by the user (left by the pipelines {rp['users'][:idx_call]} "
+                                  f"checked before on the same machine object)", rpi)
+                elif got_steps != want_steps:
+                    ctx.violation("machine_history_step_order",
+                                  f"call {idx_call} on one machine: user steps {want_steps} came back as {got_steps}", rpi)
+                else:
+                    for (name, k, mname), sp in zip(meths, specs):
+                        if sp != [-1] and bool(sp[0]):
+                            spec_check_step(ctx, k, mname, user["pipeline"][name], sp, True, out["pipeline"][name],
+                                            bands, bands, rpi)
+            if impl != m_pipe:
+                if ok and m_pipe == [0] or (not ok and m_pipe != [0]):
+                    ctx.violation("machine_history_accept_differs",
+                                  f"call {idx_call}: pipeline {list(user['pipeline'])} is "
+                                  f"{'accepted' if m_pipe != [0] else 'refused'} on a fresh machine but "
+                                  f"{'accepted' if ok else 'refused'} after {rp['users'][:idx_call]} on the same object", rpi)
+                ctx.mismatch("pipeline_check_machine_history", rpi, impl, m_pipe)
+            if jw.to_wire(mine) != before:
+                ctx.violation("user_dict_mutated", "check_pipeline_section changed the user's dictionary", rpi)
+            if not ok:
+                # a refused check leaves the machine dirty (C01: outside 'successfully'): next sequence
+                for _, ms in seq[idx_call + 1:]:
+                    hpos += 1 + len(ms)
+                break
+    if replay is not None and replay.get("level") == "machine_history":
+        return
 
     batch = []
     for bandsL, bandsR, srcL, srcR, user, meths in cases:
